@@ -504,6 +504,12 @@ type MlucRec struct {
 // shareWith[i] >= 0 makes record i point at the string of that other record
 // (which must have identical text); gap adds unused bytes between strings.
 func Mluc(recs []MlucRec, strOrder []int, shareWith []int, gap int) []byte {
+	return MlucSkip(recs, strOrder, shareWith, nil, gap)
+}
+
+// MlucSkip is Mluc with overlapping strings: a sharing record i starts
+// shareSkip[i] UTF-16 units into the string it shares (its text must be that suffix).
+func MlucSkip(recs []MlucRec, strOrder []int, shareWith []int, shareSkip []int, gap int) []byte {
 	n := len(recs)
 	if strOrder == nil {
 		for i := range recs {
@@ -531,6 +537,10 @@ func Mluc(recs []MlucRec, strOrder []int, shareWith []int, gap int) []byte {
 	for i := range recs {
 		if shareWith != nil && shareWith[i] >= 0 {
 			offs[i], lens[i] = offs[shareWith[i]], lens[shareWith[i]]
+			if shareSkip != nil && shareSkip[i] > 0 && 2*shareSkip[i] <= lens[i] {
+				offs[i] += 2 * shareSkip[i]
+				lens[i] -= 2 * shareSkip[i]
+			}
 		}
 	}
 	var b bytes.Buffer
